@@ -10,6 +10,7 @@
 #include <memory>
 #include <vector>
 #include <atomic>
+#include <climits>
 #include <thread>
 #include <algorithm>
 
@@ -112,7 +113,7 @@ void body_fn(Scenario *S, TaskRec *T) {
     while (n > m && !S->max_inflight.compare_exchange_weak(m, n)) {}
     switch (T->body) {
         case 1: { auto t0 = std::chrono::steady_clock::now(); while (std::chrono::steady_clock::now() - t0 < std::chrono::microseconds(20)) {} break; }
-        case 2: vc::sleep_us(200 + (T->prio + 2) * 150); break;
+        case 2: vc::sleep_us(200 + (std::max(-2, std::min(2, T->prio)) + 2) * 150); break;
         case 3: {
             auto &g = *S->gates[T->gate];
             for (int i = 0; i < 400000 && g.load() == 0; ++i) vc::sleep_us(50);
@@ -286,8 +287,16 @@ void gen(vh::Rng &r, Scenario &S, vh::Sig &sig) {
             add(S_WAIT_STARTED, parked);
             add(S_MARK_PARK_BEGIN);
             int m = 2 + (int)r.below(12);
+            bool wide_prio = r.chance(1, 3);
             for (int i = 0; i < m; ++i) {
-                add(S_EXEC, (int)r.range(-2, 2), (int)r.below(3), -1, r.chance(1, 2)); ++ntasks_total;
+                int pr = (int)r.range(-2, 2);
+                if (wide_prio && r.chance(1, 3)) {
+                    // outside the documented [-2, 2]: the library clamps to the nearer end (thread_pool.cpp), and so does the model
+                    static const int far[] = {-3, -4, -7, -1000, INT_MIN, 3, 4, 9, 1000, INT_MAX};
+                    pr = r.pick(far);
+                    vh::counter(pr < 0 ? "parked_tasks_with_priority_below_range" : "parked_tasks_with_priority_above_range");
+                }
+                add(S_EXEC, pr, (int)r.below(3), -1, r.chance(1, 2)); ++ntasks_total;
                 if (r.chance(1, 6)) add(S_STATUS, ntasks_total - 1 - (int)r.below(std::min(ntasks_total, 3)));
             }
             // cancel one or two of the parked tasks (not only the newest) while they are all still waiting
